@@ -49,6 +49,20 @@ class GroupCtx:
             if not nonzero or not self.F.is_zero(v):
                 return v
 
+    ZS1 = ('2', '-2', 'limbs=1', 'R', '2^64', '1/2')
+    ZS2 = ('1+tu', '1+u', '1-u', 'u', 'tu', 't', '-1+tu', 't+u', 'limbs=1', '1+limbs1*u', '2')
+
+    def structured_z(self, rng):
+        t = rng.randrange(1, Q)
+        rinv = pow(1 << 384, -1, Q)          # the value whose internal (Montgomery) limbs are 0..01
+        if self.which == 1:
+            return {'2': 2, '-2': Q - 2, 'limbs=1': rinv, 'R': (1 << 384) % Q, '2^64': (1 << 64) % Q, '1/2': pow(2, -1, Q)}
+        return {'1+tu': (1, t), '1+u': (1, 1), '1-u': (1, Q - 1), 'u': (0, 1), 'tu': (0, t), 't': (t, 0), '-1+tu': (Q - 1, t), 't+u': (t, 1),
+                'limbs=1': (rinv, 0), '1+limbs1*u': (1, rinv), '2': (2, 0)}
+
+    def zkinds(self):
+        return ['z1', 'zm', 'zr'] + ['zs:' + k for k in (self.ZS1 if self.which == 1 else self.ZS2)]
+
     def rep(self, P, rng, kind=None):
         """a Jacobian representative token of P. kind: 'z1' | 'zr' (random z) | 'zm' (z = -1) | for identity 'inf0'/'infj' """
         one = self.F.one
@@ -59,11 +73,17 @@ class GroupCtx:
             else:
                 X, Y, Z = self.jac(None, None, (self.rand_f(rng, False), self.rand_f(rng, False)))
             return self.enc_p(X, Y, Z), kind
-        kind = kind or rng.choice(['z1', 'zr', 'zr', 'zm'])
+        kind = kind or rng.choice(['z1', 'zr', 'zr', 'zm', 'zs'])
         if kind == 'z1':
             z = one
         elif kind == 'zm':
             z = self.F.neg(one)
+        elif kind.startswith('zs'):
+            # structured z: values that a sloppy "is it one / is it normalised" test confuses with 1
+            table = self.structured_z(rng)
+            sub = kind[3:] if ':' in kind else rng.choice(sorted(table))
+            z = table[sub]
+            kind = 'zs:' + sub
         else:
             z = self.rand_f(rng)
         X, Y, Z = self.jac(P, z)
